@@ -575,7 +575,9 @@ fn mesh_case<F: Backend + RenderHints>(
                 cx.add("volume_checks", 1);
                 let cell = 2.0f64.powi(1 - depth as i32) * 1.25;
                 let area = st.area.max(info.as_ref().map(|i| i.area).unwrap_or(0.0));
-                let tol = 0.5 * area * cell + 1e-3;
+                // calibrated: the largest error over the 119 000 meshes of the thorough tier on the
+                // unchanged tree is 0.21 x area x cell
+                let tol = 0.3 * area * cell + 1e-3;
                 if !mesh.triangles.is_empty() && area > 0.0 {
                     cx.max("max_volume_error_in_thousandths_of_area_x_cell", (1000.0 * (st.volume - vref).abs() / (area * cell)) as u64);
                 }
@@ -670,6 +672,8 @@ fn run<F: Backend + RenderHints>(cx: &mut Cx, tier: Tier, u: &Unit) {
                 shapes.push(single(*p));
                 shapes.push(single_at(*p, [0.0, 0.0, 0.0]));
                 shapes.push(single_at(*p, [0.25, -0.125, 0.0]));
+                // off-centre along z: under the perspective transform w is not ~1 there
+                shapes.push(single_at(*p, [0.1, -0.05, 0.35]));
             }
             for s in &shapes {
                 for depth in 1..=dmax {
@@ -726,7 +730,7 @@ impl Check for C08 {
     }
     fn meta(&self, tier: Tier) -> Meta {
         Meta {
-            rule: "case = one mesh; (a) the 255 corner-sphere patterns of the repository's own test, at depths 2, 3 and 4 (not only 2), with and without a thread pool, VM and JIT (manifoldness only: those spheres touch cell corners by design); (b) primitives {sphere r=0.3/0.6/0.85, box, cylinder, torus} at every depth 1..=4 (thorough 6) x 4 world-to-model transforms (identity, rotation, non-uniform scale, small translation) x pool / none; (c) every ordered pair of primitives under union / intersection / difference with the second one offset (quick: 6 offsets, thorough: all 27 of {-0.4,0,0.4}^3) x depths x transforms; the generator itself verifies (f64, 25x25 samples per cube face plus an inner shell) that the surface lies strictly inside the meshing region and skips shapes that do not (counted); oracle: all coordinates finite; every directed edge exactly once and its reverse exactly once; no repeated index and no two corners at the same position in a triangle; signed volume by the divergence theorem > 0 and within 0.5*area*cell (+1e-3) of the f64 volume estimated on a (2^(depth+2))^3 midpoint grid; the octree's own debug_assert!s are live".into(),
+            rule: "case = one mesh; (a) the 255 corner-sphere patterns of the repository's own test, at depths 2, 3 and 4 (not only 2), with and without a thread pool, VM and JIT (manifoldness only: those spheres touch cell corners by design); (b) 9 primitives {sphere r=0.3/0.6/0.85, box, cylinder, torus, cone with its apex on the surface, revolve-style sphere, metaballs whose cell intervals are NaN} at 4 placements (off the lattice, on the lattice centre, on another dyadic lattice line, off-centre along z) at every depth 1..=5 (thorough 6) x 5 world-to-model transforms (identity, rotation, non-uniform scale, small translation, camera perspective with bottom row (0,0,0.3,1)) x pool / none; (c) every ordered pair of 6 primitives under union / intersection / difference with the second one offset (quick: 6 offsets, 2 transforms, depths 1-3; thorough: all 27 offsets of {-0.4,0,0.4}^3, all transforms, depths 1-5); the generator itself verifies (f64, 25x25 samples per cube face plus an inner shell) that the surface lies strictly inside the meshing region and skips shapes that do not (counted); oracle: all coordinates finite; every directed edge exactly once and its reverse exactly once; no repeated index and no two corners at the same position in a triangle; signed volume by the divergence theorem > 0 and within 0.3*area*cell (+1e-3) of the f64 volume estimated on a (2^(depth+2))^3 midpoint grid with the volume element |det M|/w^4 of the (possibly projective) transform - the factor 0.3 is calibrated: the largest error over the 119 000 meshes of the thorough tier on the unchanged tree is 0.21*area*cell; violations inside one of three input classes computed from the input alone carry the exact input in their signature (known findings are listed input by input); the octree's own debug_assert!s are live".into(),
             bounds: match tier {
                 Tier::Quick => "depth <= 4 for primitives, <= 3 for pairs; 6 offsets; 2 transforms for pairs; pairs on VM only".into(),
                 Tier::Thorough => "depth <= 6 for primitives, <= 5 for pairs; 27 offsets; 4 transforms; VM and JIT".into(),
